@@ -1,4 +1,5 @@
 SPECIFICATION Spec
+VIEW View
 CHECK_DEADLOCK FALSE
 CONSTANTS
   CHUNK_ALIGN = 4
@@ -6,19 +7,21 @@ CONSTANTS
   MALLOC_OVERHEAD = 4
   FIRST_GOAL = 32
   PAGE = 64
-  MinAligns = {2}
-  Sizes = {0, 1, 3, 8, 25}
-  Aligns = {1, 4, 8}
+  SentAddrs = {16}
+  SLOT = 1024
+  MinAligns = {1, 4}
+  Sizes = {0, 3, 24, 25}
+  Aligns = {1, 8}
   Caps = {25}
   Limits = {}
-  SentAddrs = {16}
   MaxSlots = 2
-  SLOT = 1024
-  MaxLive = 2
-  MaxRefuse = 1
-  GrowIncs = {1, 30}
-  ShrinkDecs = {1, 20}
-  ClosSizes = {2}
+  MaxLive = 3
+  MaxRefuse = 0
+  GrowIncs = {}
+  ShrinkDecs = {}
+  ClosSizes = {2, 30}
+  TrackLive = TRUE
+  EnableTryFill = TRUE
 INVARIANTS
   NoObligationFailed
   InBounds
